@@ -382,6 +382,7 @@ fn rand_fault(rng: &mut Rng, remaining: usize) -> Resp {
 }
 
 pub async fn c08_http(seed: u64, thorough: bool) {
+    let mut n_surplus_cases = 0usize;
     let srv = Server::start().await;
     let mut rng = Rng::new(seed ^ 0xC08);
     let mut n_cases = 0usize;
@@ -488,6 +489,51 @@ pub async fn c08_http(seed: u64, thorough: bool) {
         }
         n_cases += 1;
     }
+    // a server that sends MORE than asked for on every answer, lists with several runs: the surplus of one
+    // run must not leak into the next (each chunk exact, one request per run, no panic)
+    let n_surplus = if thorough { 1500 } else { 200 };
+    for _ in 0..n_surplus {
+        let n = rng.range(2, 8) as usize;
+        let mut lay = layout(&mut rng, n, 24);
+        // make sure there are gaps: drop some chunks
+        lay.retain(|_| rng.below(3) > 0);
+        if lay.len() < 2 {
+            continue;
+        }
+        let runs = oracle_runs(&lay);
+        let next_size = lay.get(1).map(|c| c.1).unwrap_or(1);
+        let extra = match rng.below(4) {
+            0 => 1,
+            1 => next_size,
+            2 => next_size + rng.below(40) as usize,
+            _ => rng.range(1, 3000) as usize,
+        };
+        let dlen = lay.iter().map(|(o, s)| o + *s as u64).max().unwrap() as usize + 3;
+        let script: Vec<Resp> = runs.iter().map(|_| Resp::Extra(extra)).collect();
+        let req = format!(
+            "http-x {} 0 {} {} {}",
+            extra,
+            dlen,
+            chunks_token(&lay),
+            h::join(&runs.iter().map(|_| "F".to_string()).collect::<Vec<_>>(), ",")
+        );
+        println!("TRY\t{}", req);
+        let data = Arc::new(h::pattern(dlen));
+        let (items, log, _raw) = run_http_chunks(&srv, data.clone(), 0, &lay, script).await;
+        h::emit_case(&req, &format!("items={} reqs={}", h::join(&items, ","), reqs_token(&log)));
+        let mut ok = items.len() == lay.len();
+        for (i, (o, s_)) in lay.iter().enumerate() {
+            if items.get(i) != Some(&format!("c{}", h::digest(&data[*o as usize..*o as usize + *s_]))) {
+                ok = false;
+            }
+        }
+        let got: Vec<(u64, u64)> = log.iter().map(|r| r.unwrap_or((u64::MAX, 0))).collect();
+        if !ok || got != runs {
+            h::emit_oracle_fail("surplus-from-the-server-changed-what-was-delivered-or-requested", &req);
+        }
+        n_surplus_cases += 1;
+    }
+    h::emit_stat("surplus_server_cases", n_surplus_cases);
     h::emit_stat("cases", n_cases);
     h::emit_stat("exhaustive_cases", n_exh);
     for (k, v) in kinds {
